@@ -8,13 +8,14 @@ Definition core_eq (w w' : world) : Prop :=
 
 Lemma InvS_frame w w' : core_eq w w' -> InvS w -> InvS w'.
 Proof.
-  intros (E1&E2&E3&E4&E5&E6&E7&E8) [A B C D F G H I].
+  intros (E1&E2&E3&E4&E5&E6&E7&E8) [A B C D F G H I J].
   constructor; rewrite ?E1, ?E2, ?E3, ?E4, ?E5, ?E6, ?E7, ?E8; assumption.
 Qed.
 
 Lemma evolves_core w w' : core_eq w w' -> evolves w w'.
 Proof.
   intros (E1&E2&E3&E4&E5&E6&E7&E8). constructor; rewrite ?E1, ?E2, ?E3, ?E4, ?E8; auto using tlag_refl; try lia.
+  - intros e H. exists e. auto using ele_refl.
   - intros e H. exists e. auto using ele_refl.
   - intros s H. exists s. auto using sle_refl.
 Qed.
@@ -33,7 +34,7 @@ Lemma exp_update_inv w e e' :
   e_max e' = e_max e -> e_deleting e' = false -> e_rv e' = S (e_rv e) -> counts_nonneg (es_counts (e_st e')) ->
   InvS (set_exp w (Some e')) /\ evolves w (set_exp w (Some e')).
 Proof.
-  intros [A B C D F G H I] He M Dl R NN.
+  intros [A B C D F G H I J] He M Dl R NN.
   assert (L : ele e e') by (repeat split; [lia|lia|rewrite M; apply max_le_refl]).
   split.
   - constructor; cbn; auto.
@@ -42,6 +43,7 @@ Proof.
     + destruct I as (I1&I2&I3). repeat split; auto. intros e1 m [= <-] Hm. rewrite M in Hm. eauto.
   - constructor; cbn; auto using tlag_refl; try lia.
     + intros e1 [= <-]. eauto.
+    + intros e1 He1. rewrite He in He1. inversion He1; subst e1. eauto.
     + intros s Hs. exists s. auto using sle_refl.
 Qed.
 
@@ -56,7 +58,7 @@ Lemma sug_update_inv w s' g' :
   let w1 := set_ghost (set_sug w (Some s')) g' (g_rpcs w) (g_jobcreates w) (g_jobdeletes w) (g_dbdeletes w) (g_finreleased w) (g_writes w) in
   InvS w1 /\ evolves w w1.
 Proof.
-  intros [A B C D F G H I] L W Cn Rq Gm Gb Gx w1.
+  intros [A B C D F G H I J] L W Cn Rq Gm Gb Gx w1.
   split.
   - constructor; cbn; auto.
     + destruct (w_sug w) as [s|] eqn:Es.
@@ -67,6 +69,7 @@ Proof.
       * destruct H as (Hc&Ht). rewrite Hc, Ht. repeat split; auto. intros x [].
     + destruct I as (I1&I2&I3). repeat split; auto. lia.
   - constructor; cbn; auto using tlag_refl.
+    + intros e He. exists e. auto using ele_refl.
     + intros e He. exists e. auto using ele_refl.
     + intros s Hs. rewrite Hs in L. eauto.
 Qed.
@@ -79,11 +82,11 @@ Proof. reflexivity. Qed.
 Lemma trial_update_inv w n f t :
   InvS w -> find_trial n (w_trials w) = Some t ->
   (forall x, t_name (f x) = t_name x) -> (forall x, t_deleting (f x) = t_deleting x) ->
-  tle t (f t) ->
+  tle t (f t) -> tgood (f t) ->
   let w1 := set_trials w (upd_trial n f (w_trials w)) in
   InvS w1 /\ evolves w w1.
 Proof.
-  intros [A B C D F G H I] Ft Fn Fd L w1.
+  intros [A B C D F G H I J] Ft Fn Fd L TG w1.
   assert (P : forall x, In x (w_trials w) -> tle x (if Nat.eqb (t_name x) n then f x else x)).
   { intros x Ix. destruct (Nat.eqb (t_name x) n) eqn:E; [|apply tle_refl].
     apply Nat.eqb_eq in E. rewrite (find_trial_in n _ x C Ix E) in Ft. inversion Ft; subst. exact L. }
@@ -101,7 +104,11 @@ Proof.
       * rewrite upd_trial_names by assumption. exact H.
       * destruct H as (_&Ht). rewrite Ht in Ft. discriminate.
     + destruct I as (I1&I2&I3). repeat split; auto. pose proof (tlag_completed _ _ TL). lia.
+    + rewrite upd_trial_map. apply Forall_forall. intros x Hx. apply in_map_iff in Hx as (y&<-&Iy).
+      rewrite Forall_forall in J. destruct (Nat.eqb (t_name y) n) eqn:E; [|auto].
+      apply Nat.eqb_eq in E. rewrite (find_trial_in n _ y C Iy E) in Ft. inversion Ft; subst. exact TG.
   - constructor; cbn; auto; try lia.
+    + intros e He. exists e. auto using ele_refl.
     + intros e He. exists e. auto using ele_refl.
     + intros s Hs. exists s. auto using sle_refl.
 Qed.
@@ -114,7 +121,7 @@ Lemma trial_create_inv w n s :
   let w1 := set_trials w (w_trials w ++ [new_trial n]) in
   InvS w1 /\ evolves w w1.
 Proof.
-  intros [A B C D F G H I] Hs In Fn w1. split.
+  intros [A B C D F G H I J] Hs In Fn w1. split.
   - constructor; cbn; auto.
     + unfold names. rewrite map_app. cbn. apply NoDup_snoc; [exact C|]. now apply find_trial_none.
     + apply Forall_app. split; [exact D|]. repeat constructor.
@@ -122,7 +129,9 @@ Proof.
     + rewrite Hs in *. destruct H as (W0&C0&R0&In0&Hc). repeat split; auto.
       unfold names. rewrite map_app. cbn. intros x Hx. apply in_app_or in Hx as [Hx|[<-|[]]]; auto.
     + destruct I as (I1&I2&I3). repeat split; auto. rewrite completed_app. unfold completed_n at 2. cbn. lia.
+    + apply Forall_app. split; [exact J|]. constructor; [|constructor]. unfold tgood, good_conds. cbn. discriminate.
   - constructor; cbn; auto; try lia.
+    + intros e He. exists e. auto using ele_refl.
     + intros e He. exists e. auto using ele_refl.
     + intros s0 Hs0. exists s0. auto using sle_refl.
     + apply tlag_app, tlag_refl.
